@@ -9,6 +9,7 @@ open ASV
 def reg (r : Rec) (a : AreaT) : Rec :=
   match a.kind with
   | .proto => { r with protos := r.protos ++ [a] }
+  | .sideProto => { r with protos := r.protos ++ [a] }
   | .cand => { r with cands := r.cands ++ [a] }
   | .sub => { r with subs := r.subs ++ [a] }
   | .region => { r with regions := r.regions ++ [a] }
@@ -30,7 +31,7 @@ structure RegFrame (r r0 : Rec) (a : AreaT) : Prop where
   tupleVal : r0.tupleVal = r.tupleVal
   log : r0.log = r.log
   regions : r0.regions = (if a.kind = .region then r.regions ++ [a] else r.regions)
-  protos : r0.protos = (if a.kind = .proto then r.protos ++ [a] else r.protos)
+  protos : r0.protos = (if a.kind = .proto ∨ a.kind = .sideProto then r.protos ++ [a] else r.protos)
   cands : r0.cands = (if a.kind = .cand then r.cands ++ [a] else r.cands)
   subs : r0.subs = (if a.kind = .sub then r.subs ++ [a] else r.subs)
 
@@ -56,6 +57,7 @@ theorem addArea_ok {r r' : Rec} {a : AreaT} (h : addArea r a = .ok r') :
       unfold reg
       cases hk : a.kind with
       | proto => simp only [hk] at h; exact ⟨by simp, h⟩
+      | sideProto => simp only [hk] at h; exact ⟨by simp, h⟩
       | cand => simp only [hk] at h; exact ⟨by simp, h⟩
       | sub => simp only [hk] at h; exact ⟨by simp, h⟩
       | region =>
